@@ -27,8 +27,14 @@ func cssEscape(r *rand.Rand) string {
 		for i := 0; i < n; i++ {
 			s += string(cssHex[r.Intn(len(cssHex))])
 		}
-		// a hex escape takes one following whitespace character as its terminator: always written, so that the
-		// escape never absorbs the next name character or the first byte of a following whitespace token
+		if n == 6 && r.Intn(2) == 0 {
+			// six digits end the escape by themselves: the next character, hex digit or not, belongs to the name. A
+			// name character is written right away so that the optional terminating whitespace cannot be taken from a
+			// following whitespace token.
+			return s + Pick(r, []string{"1", "a", "F", "g", "-", "_", "é"})
+		}
+		// a shorter hex escape takes one following whitespace character as its terminator: always written, so that
+		// the escape never absorbs the next name character or the first byte of a following whitespace token
 		return s + Pick(r, []string{" ", " ", "\t", "\n"})
 	case 1:
 		return "\\" + Pick(r, []string{"g", "z", "G", "-", "!", "\"", "'", "(", ")", "\\", ".", "#", "@", " ", ":", ";", "{", "~", "+"})
